@@ -204,6 +204,15 @@ func cmdCheck(args []string) int {
 		}
 		var kept []*Obl
 		for i, o := range r.Obls {
+			if o.LemmaStep {
+				// a proof step: solved so that what follows may rest on it, never reported itself; if it fails, the selected
+				// obligations after it are re-solved without its fact
+				if i < lastSel && o.FactIdx >= 0 {
+					o.Support = true
+					kept = append(kept, o)
+				}
+				continue
+			}
 			if f(o) {
 				kept = append(kept, o)
 			} else if i < lastSel && o.FactIdx >= 0 {
